@@ -434,12 +434,17 @@ def history_group(core, util, rng, p, maxn, prop):
         cur["ev"].append({"e": "V", "v": bool(f[1])})
         return f[1]
 
+    class Boom(Exception):
+        pass
+
     class Src(util.DataSource):
-        def __init__(s_, stream, ev):
-            s_.s, s_.i, s_.ev = stream, 0, ev
+        def __init__(s_, stream, ev, fail_at=None):
+            s_.s, s_.i, s_.ev, s_.fail_at = stream, 0, ev, fail_at
 
         def read(s_):
             cur["ev"] = s_.ev
+            if s_.fail_at is not None and s_.i == s_.fail_at:
+                raise Boom()            # a device error / interrupt in the middle of a stream
             if s_.i >= len(s_.s):
                 s_.ev.append({"e": "EOS"})
                 return None
@@ -456,7 +461,16 @@ def history_group(core, util, rng, p, maxn, prop):
         elif rng.random() < .5:
             s = [True] * rng.randint(1, max(1, p["min"])) + [False] * (p["sil"] + 2) + s    # starts with a short burst
         streams.append(s)
-    style = rng.choice(["sequential", "upfront"])
+    style = rng.choice(["sequential", "upfront", "fault"])
+    if style == "fault":
+        # the first stream breaks (exception out of read()) while a candidate token is buffered; the caller catches it and goes on
+        s0 = [False] * rng.randint(0, 2) + [True] * rng.randint(1, max(1, p["max"] - 1)) + [True, False, True]
+        try:
+            for _ in tk.tokenize(Src(s0, [], fail_at=rng.randint(1, len(s0) - 1)), generator=rng.random() < .5) or ():
+                pass
+        except Boom:
+            pass
+        style = "sequential"
     evs = [[] for _ in streams]
     out = []
     gens = [tk.tokenize(Src(s, ev), generator=True) for s, ev in zip(streams, evs)] if style == "upfront" else None
